@@ -9,6 +9,12 @@
 EXTENDS NtpExchange, Json
 VARIABLE hist
 ThetasGen == {0, 40, -40}
+FwdNone == {"none"}
+FwdAll == {"none", "inside", "before", "after", "bad"}
+\* the transport a schedule is meant for: only a SCION end host has a forwarder
+Tr == IF FwdStamps = {"none"} THEN "ip" ELSE "scion"
+\* weighted draw of what the forwarder attached to a delivered response
+FwdW == <<"none", "inside", "inside", "before", "before", "after", "bad">>
 
 Pick(S) == RandomElement(S)
 Name(m) == IF m.kind = "req" THEN [kind |-> "req", ex |-> m.ex, copy |-> m.copy]
@@ -39,7 +45,8 @@ GNext ==
   \E w \in {Pick(1 .. (IF now >= 0 THEN 8 ELSE 7))} :
     LET cand == {mv \in Moves : Weight(mv) >= w} IN
     /\ cand # {}
-    /\ \E mv \in {Pick(cand)}, lost \in {Pick(1 .. 4) = 1} :
+    /\ \E mv \in {Pick(cand)}, lost \in {Pick(1 .. 4) = 1},
+          fi \in {Pick({i \in 1 .. Len(FwdW) : FwdW[i] \in FwdStamps /\ now >= 0})} :
          CASE mv[1] = "send"    -> ClientSend /\ hist' = Append(hist, [a |-> "send", ex |-> attempts + 1])
            [] mv[1] = "idle"    -> Idle /\ hist' = Append(hist, [a |-> "idle"])
            [] mv[1] = "theta"   -> ThetaChange /\ hist' = Append(hist, [a |-> "theta", t |-> theta'])
@@ -47,12 +54,12 @@ GNext ==
            [] mv[1] = "dropq"   -> NetDrop(mv[2]) /\ hist' = Append(hist, [a |-> "drop", m |-> Name(mv[2])])
            [] mv[1] = "dupq"    -> NetDup(mv[2]) /\ hist' = Append(hist, [a |-> "dup", m |-> Name(mv[2])])
            [] mv[1] = "stx"     -> ServerTx(mv[2], lost) /\ hist' = Append(hist, [a |-> "stx", h |-> mv[2].h, lost |-> lost])
-           [] mv[1] = "crecv"   -> ClientRecv(mv[2]) /\ hist' = Append(hist, [a |-> "crecv", m |-> Name(mv[2]), res |-> res'.kind])
+           [] mv[1] = "crecv"   -> ClientRecv(mv[2], FwdW[fi]) /\ hist' = Append(hist, [a |-> "crecv", m |-> Name(mv[2]), res |-> res'.kind, fw |-> FwdW[fi]])
            [] mv[1] = "dropr"   -> NetDrop(mv[2]) /\ hist' = Append(hist, [a |-> "drop", m |-> Name(mv[2])])
            [] mv[1] = "dupr"    -> NetDup(mv[2]) /\ hist' = Append(hist, [a |-> "dup", m |-> Name(mv[2])])
            [] mv[1] = "timeout" -> ClientTimeout /\ hist' = Append(hist, [a |-> "timeout"])
 
-HInit == Init /\ hist = << >>
+HInit == Init /\ hist = <<[a |-> "net", tr |-> Tr]>>
 HSpec == HInit /\ [][GNext]_<<vars, hist>>
 \* a schedule is complete when the client has used its attempts and is idle
 Done == attempts = MaxAttempts /\ pend = NoReq
